@@ -18,6 +18,7 @@ import numpy as np
 
 import c18_lib as L
 import npcatalog as C
+import c18_templates  # noqa: F401  (registers the C18-specific sequence-of-quantities templates)
 
 UNITS = ("m", "kg", "K")
 # every second value operand carries a commensurable but differently scaled unit, so that a handler
@@ -30,6 +31,49 @@ STATIC_INPLACE = {"numpy.put", "numpy.place", "numpy.putmask", "numpy.copyto", "
                   "ndarray.sort", "ndarray.partition", "ndarray.fill", "ndarray.put", "ndarray.itemset", "ndarray.resize",
                   "ndarray.setfield", "ndarray.byteswap", "ndarray.__setitem__", "ndarray.setflags"}
 FAULTS = ("valid", "incommensurable", "non-dimensionless", "bad-shape", "bad-kwarg", "int-out", "readonly-out")
+
+
+class FusedOp(C.Op):
+    """ONE array operand standing for a sequence of quantities of the original call (`fuse_call`)"""
+
+    __slots__ = ()
+
+
+def fuse_call(call, kind="f"):
+    """the call with every list/tuple of >= 2 value operands of one group and one shape replaced by ONE array operand
+    (bottom-up, so [[a, b], [c, d]] becomes one 2x2 array): the call form `range=[0, 5] * km` instead of
+    `range=(0 * km, 5 * km)`.  kind 'i': the fused numbers as int64 (None when they are not integral).
+    None when the call has no such sequence."""
+    hit = {"n": 0, "bad": False}
+
+    def walk(x):
+        if isinstance(x, (list, tuple)):
+            ys = [walk(y) for y in x]
+            if (len(ys) >= 2 and all(isinstance(y, C.Op) and y.role == "value" for y in ys)
+                    and len({(y.group, y.dimless, np.shape(y.data)) for y in ys}) == 1):
+                d = np.stack([np.asarray(y.data) for y in ys])
+                if d.dtype.kind not in "fiu":
+                    return type(x)(ys)
+                if kind == "i":
+                    if d.dtype.kind == "f":
+                        if not np.all(d == np.round(d)):
+                            hit["bad"] = True
+                        d = d.astype(np.int64)
+                else:
+                    d = d.astype(np.float64) if d.dtype.kind != "f" else d
+                hit["n"] += 1
+                return FusedOp(d, "value", ys[0].group, ys[0].dimless)
+            return type(x)(ys) if isinstance(x, tuple) else ys
+        if isinstance(x, dict):
+            return {k: walk(v) for k, v in x.items()}
+        return x
+
+    c = copy.copy(call)
+    c.args = [walk(a) for a in copy.deepcopy(call.args)]
+    c.kwargs = {k: walk(v) for k, v in copy.deepcopy(call.kwargs).items()}
+    if hit["n"] == 0 or hit["bad"]:
+        return None
+    return c
 
 
 def _wrap_views(units, out_mode, held, fault=None, pos=None, alt=False):
@@ -51,7 +95,7 @@ def _wrap_views(units, out_mode, held, fault=None, pos=None, alt=False):
             held.append((op, H))
             return H.obj
         uname = "dimensionless" if op.dimless else units[op.group % len(units)]
-        if alt and i % 2 == 1 and uname in ALT:
+        if alt and (i % 2 == 1 or isinstance(op, FusedOp)) and uname in ALT:
             uname = ALT[uname]
         if fault in ("incommensurable", "non-dimensionless") and i == pos:
             uname = FAULT_UNIT
@@ -136,13 +180,17 @@ def _run(t, call, wrap, held):
     return exc, snaps0, snaps1
 
 
-def run_case(tid, dk, sc, seed, fault="valid", pos=None, out_mode="unyt", alt=False):
-    """(status, findings): findings = [(key, what)]"""
+def run_case(tid, dk, sc, seed, fault="valid", pos=None, out_mode="unyt", alt=False, fuse=None):
+    """(status, findings): findings = [(key, what)]; fuse in (None, 'f', 'i'): sequences of quantities passed as ONE array"""
     t = [x for x in C.templates() if x.tid == tid][0]
     try:
         call0 = t.instantiate(dk, sc, seed)
     except Exception as e:  # noqa: BLE001
         return "skip-build", []
+    if fuse:
+        call0 = fuse_call(call0, fuse)
+        if call0 is None:
+            return "skip-fuse", []
     call = inject(call0, fault, pos, seed)
     if call is None:
         return "skip-fault", []
@@ -200,7 +248,7 @@ def run_case(tid, dk, sc, seed, fault="valid", pos=None, out_mode="unyt", alt=Fa
     return status, out
 
 
-def replay_snippet(tid, dk, sc, seed, fault, pos, out_mode, alt, key, harness_dir):
+def replay_snippet(tid, dk, sc, seed, fault, pos, out_mode, alt, key, harness_dir, fuse=None):
     return (
         "import sys, warnings\n"
         "warnings.simplefilter('ignore')\n"
@@ -208,7 +256,7 @@ def replay_snippet(tid, dk, sc, seed, fault, pos, out_mode, alt, key, harness_di
         "import numpy as np\n"
         "np.seterr(all='ignore')\n"
         "import c18_cat as K\n"
-        f"st, found = K.run_case({tid!r}, {dk!r}, {sc!r}, {seed!r}, {fault!r}, {pos!r}, {out_mode!r}, {alt!r})\n"
+        f"st, found = K.run_case({tid!r}, {dk!r}, {sc!r}, {seed!r}, {fault!r}, {pos!r}, {out_mode!r}, {alt!r}, {fuse!r})\n"
         "print('status:', st, '\\nverdict:', found)\n"
         f"assert {key!r} not in [k for k, _ in found], found\n"
     )
@@ -251,5 +299,20 @@ def sweep(job):
                             cases.append((t.tid, sc, dk, f, p, om, alt))
                         for key, what in found:
                             if key not in fails:
-                                fails[key] = dict(tid=t.tid, dk=dk, sc=sc, seed=dseed, fault=f, pos=p, om=om, alt=alt, what=what)
+                                fails[key] = dict(tid=t.tid, dk=dk, sc=sc, seed=dseed, fault=f, pos=p, om=om, alt=alt, what=what, fuse=None)
+                # the same call with its sequences of quantities passed as ONE array (float and, when integral, int64 numbers),
+                # in the same unit and in a differently scaled commensurable unit
+                if "valid" in faults and not alt:
+                    for fz in ("f", "i"):
+                        if fuse_call(call0, fz) is None:
+                            continue
+                        for a2 in (False, True):
+                            st, found = run_case(t.tid, dk, sc, dseed, "valid", None, "unyt", a2, fz)
+                            k = f"fused-{fz}:{st}"
+                            stats[k] = stats.get(k, 0) + 1
+                            if not st.startswith("skip"):
+                                cases.append((t.tid, sc, dk, "valid", None, "unyt", a2, "fused-" + fz))
+                            for key, what in found:
+                                if key not in fails:
+                                    fails[key] = dict(tid=t.tid, dk=dk, sc=sc, seed=dseed, fault="valid", pos=None, om="unyt", alt=a2, what=what, fuse=fz)
     return dict(stats=stats, fails=fails, cases=cases)
